@@ -282,6 +282,39 @@ def two_function_modules(quick, rng):
     return out
 
 
+def two_round_modules(quick, rng):
+    """wave 6: the module under test is linked in a SECOND MIR_link round: it imports functions (`Oe`) of a module that
+    was loaded, linked with the same interface and executed (machine code generated, also for the lazy interfaces) in
+    an earlier round, and holds ref items to them with displacements, next to refs to externals (`Oi`), data and bss.
+    A ref holds the address of the referenced item + disp whatever earlier rounds did to the definition."""
+    engines = ['g2', 'l2', 'b2', 'i', 'g0', 'b0', 'g1', 'l0']
+    disps = ['0', '8', 'fffffffffffffff8', '1', '7fffffff']
+    out = []
+    for e in engines:
+        out.append('%s : Oe ; R - 0 0' % e)
+        out.append('%s : Oe ; R 1 0 0 ; D - u8 1 ; R - 0 8 ; Oi ; R - 4 0 ; Oe ; R - 6 fffffffffffffff8 ; R - 1 4' % e)
+        out.append('%s : D 0 i64 1 ; Oe ; Oe ; R - 2 0 ; R - 1 0 ; R - 0 0 ; B - 3 ; R - 1 1' % e)
+    for _ in range(800 if quick else 8000):
+        items = []
+        for i in range(rng.choice([2, 3, 4, 6, 9])):
+            tg = [j for j, t in enumerate(items) if t.split()[0] in ('Oe', 'Oi') or (t[0] in 'DBR' and t.split()[1] != '-')]
+            pre = [j for j in tg if items[j] == 'Oe']
+            r = rng.random()
+            if r < 0.45 and tg:
+                j = rng.choice(pre) if pre and rng.random() < 0.7 else rng.choice(tg)
+                items.append('R %s %d %s' % (str(i) if rng.random() < 0.3 else '-', j, rng.choice(disps)))
+            elif r < 0.7 or not tg:
+                items.append('Oe')
+            elif r < 0.8:
+                items.append('Oi')
+            elif r < 0.92:
+                items.append('D %s u8 %x' % (str(i) if rng.random() < 0.5 else '-', rng.randrange(256)))
+            else:
+                items.append('B %s %d' % (str(i) if rng.random() < 0.5 else '-', rng.choice([1, 3, 8])))
+        out.append('%s : %s' % (rng.choice(engines), ' ; '.join(items)))
+    return out
+
+
 BOUNDARY = [
     'T',
     'i : D - u8 -',
@@ -544,6 +577,7 @@ def run(chk):
     cases += exhaustive(3 if quick else 5)
     cases += label_shapes(quick)
     cases += two_function_modules(quick, chk.rng('two-functions'))
+    cases += two_round_modules(quick, chk.rng('two-rounds'))
     nfixed = len(cases)
     rng = chk.rng('items')
     nrand = 15000 if quick else 120000
